@@ -2,13 +2,14 @@
 // config.GetConfigFromENV -> relayer.NewRelayerConfig, processRawConfig/mergo) and the real chain
 // constructors (evm.NewEVMConfig, substrate.NewSubstrateConfig, btcconfig.NewBtcConfig) followed by
 // chains.CalculateStartingBlock on every accepted chain config, and reports what they did with the
-// written values.
+// written values - and what the config object holds after it was used (use.go).
 package main
 
 import (
 	"encoding/hex"
 	"encoding/json"
 	"fmt"
+	"math"
 	"math/big"
 	"os"
 	"path/filepath"
@@ -17,7 +18,6 @@ import (
 	"strings"
 	"time"
 
-	"github.com/ChainSafe/sygma-relayer/chains"
 	btcconfig "github.com/ChainSafe/sygma-relayer/chains/btc/config"
 	"github.com/ChainSafe/sygma-relayer/chains/evm"
 	"github.com/ChainSafe/sygma-relayer/chains/substrate"
@@ -26,11 +26,13 @@ import (
 	"verifharness/vgen"
 )
 
-// JV is a scalar JSON value: exactly one of N / S / B is set.
+// JV is a scalar JSON value: exactly one of N / S / B / R is set.  R = the non-integral number
+// R[0]/R[1] in lowest terms, R[1] a power of two >= 2 (float64 holds it exactly).
 type JV struct {
-	N *int64  `json:"n,omitempty"`
-	S *string `json:"s,omitempty"`
-	B *bool   `json:"b,omitempty"`
+	N *int64    `json:"n,omitempty"`
+	S *string   `json:"s,omitempty"`
+	B *bool     `json:"b,omitempty"`
+	R *[2]int64 `json:"r,omitempty"`
 }
 type KV struct {
 	K string `json:"k"`
@@ -69,6 +71,15 @@ type ChainObs struct {
 	Confs    string `json:"confs"`
 	Start    string `json:"start"`
 	Calc     string `json:"calc"` // decimal, or "panic"
+	// after the config object was used as the application uses it (use.go): the three numeric settings
+	// read again, whether every other field still equals the snapshot taken right after loading (Diff:
+	// the first field that does not), and the results of the later start-block computations
+	AInterval string   `json:"ainterval"`
+	AConfs    string   `json:"aconfs"`
+	AStart    string   `json:"astart"`
+	Same      bool     `json:"same"`
+	Diff      string   `json:"diff,omitempty"`
+	Calcs     []string `json:"calcs"`
 }
 
 type Obs struct {
@@ -449,6 +460,9 @@ func construct(kind string, m map[string]interface{}) (o Obs) {
 		}
 	}()
 	var interval, confs, start *big.Int
+	var cfgObj interface{}
+	var str func() string
+	m0 := snapshot(m)
 	switch kind {
 	case "evm":
 		cfg, err := evm.NewEVMConfig(m)
@@ -456,36 +470,26 @@ func construct(kind string, m map[string]interface{}) (o Obs) {
 			return Obs{Err: err.Error()}
 		}
 		interval, confs, start = cfg.BlockInterval, cfg.BlockConfirmations, cfg.StartBlock
+		cfgObj, str = cfg, cfg.String
 	case "substrate":
 		cfg, err := substrate.NewSubstrateConfig(m)
 		if err != nil {
 			return Obs{Err: err.Error()}
 		}
 		interval, confs, start = cfg.BlockInterval, big.NewInt(0), cfg.StartBlock
+		cfgObj, str = cfg, cfg.String
 	case "btc":
 		cfg, err := btcconfig.NewBtcConfig(m)
 		if err != nil {
 			return Obs{Err: err.Error()}
 		}
 		interval, confs, start = cfg.BlockInterval, cfg.BlockConfirmations, cfg.StartBlock
+		cfgObj = cfg
 	default:
 		panic("unknown chain kind " + kind)
 	}
 	co := &ChainObs{Interval: interval.String(), Confs: confs.String(), Start: start.String()}
-	// the start-block computation the application performs with every accepted config (app/app.go)
-	func() {
-		defer func() {
-			if r := recover(); r != nil {
-				co.Calc = "panic"
-			}
-		}()
-		r, err := chains.CalculateStartingBlock(new(big.Int).Set(start), interval)
-		if err != nil {
-			co.Calc = "panic"
-			return
-		}
-		co.Calc = r.String()
-	}()
+	useConfig(co, cfgObj, m, m0, str)
 	return Obs{Ok: true, Chain: co}
 }
 
@@ -503,6 +507,8 @@ func (e Entry) toMap(intIds bool) map[string]interface{} {
 			m[kv.K] = *kv.V.S
 		case kv.V.B != nil:
 			m[kv.K] = *kv.V.B
+		case kv.V.R != nil:
+			m[kv.K] = float64(kv.V.R[0]) / float64(kv.V.R[1])
 		}
 	}
 	return m
@@ -520,7 +526,19 @@ func fromMap(m map[string]interface{}) (Entry, string) {
 		case float64:
 			i := int64(v)
 			if float64(i) != v {
-				return nil, fmt.Sprintf("non-integral number %v at %q", v, k)
+				// a binary fraction: numerator / power of two, lowest terms
+				ok := false
+				for d := int64(2); d <= 1<<20; d *= 2 {
+					if n := int64(v * float64(d)); float64(n) == v*float64(d) && math.Abs(v) < 1<<40 {
+						e = append(e, KV{k, JV{R: &[2]int64{n, d}}})
+						ok = true
+						break
+					}
+				}
+				if !ok {
+					return nil, fmt.Sprintf("non-integral number %v at %q", v, k)
+				}
+				continue
 			}
 			e = append(e, KV{k, JV{N: &i}})
 		case int:
@@ -987,7 +1005,16 @@ func genMerges(r *vgen.Rng, tier string) []Case {
 				typ = ""
 			}
 			c.Locals = append(c.Locals, entry(ids[j], typ, withID, withType, ks, true))
-			if !r.Chance(1, 12) { // sometimes the shared configuration does not know the chain
+			switch {
+			case r.Chance(1, 12): // sometimes the shared configuration does not know the chain
+			case r.Chance(1, 10): // ... or knows only a chain whose id is congruent mod 256 / differs by a fraction
+				e := entry(ids[j]+vgen.Pick(r, []int64{256, -256, 512, 65536}), "", true, false, ks, false)
+				if r.Chance(1, 3) {
+					e = entry(0, "", false, false, ks, false)
+					e = append(Entry{KV{"id", JV{R: &[2]int64{2*ids[j] + 1, 2}}}}, e...)
+				}
+				c.Shared = append(c.Shared, e)
+			default:
 				c.Shared = append(c.Shared, entry(ids[j], "", true, false, ks, false))
 			}
 		}
@@ -996,6 +1023,94 @@ func genMerges(r *vgen.Rng, tier string) []Case {
 		}
 		r.Shuffle(len(c.Shared), func(a, b int) { c.Shared[a], c.Shared[b] = c.Shared[b], c.Shared[a] })
 		out = append(out, c)
+	}
+	out = append(out, genIdMerges(r, tier)...)
+	return out
+}
+
+// chain ids are compared as written: local ids over the whole range of numbers a configuration can
+// carry (beyond the uint8 of the chain constructors, negative, non-integral, written as a string)
+// against shared configurations that hold the same id, only an id CONGRUENT to it (mod 256, mod 2^16,
+// mod 2^32, truncated, rounded), both, or neither.  Every shared entry carries settings of its own, so
+// that whatever a local chain inherits shows.
+func genIdMerges(r *vgen.Rng, tier string) []Case {
+	var out []Case
+	num := func(v int64) JV { return JV{N: i64(v)} }
+	frac := func(n, d int64) JV { return JV{R: &[2]int64{n, d}} }
+	ints := []int64{0, 1, 2, 3, 255, 256, 257, 258, 511, 512, 513, 65535, 65536, 65537, 1 << 31, 1<<31 + 1, 1 << 32, 1<<32 + 1,
+		-1, -2, -255, -256, -257, 1<<53 - 1}
+	type idc struct {
+		id   JV
+		near []JV // ids that a narrowing / rounding comparison would confuse with id
+	}
+	var ids []idc
+	for _, v := range ints {
+		c := idc{id: num(v)}
+		for _, m := range []int64{1 << 8, 1 << 16, 1 << 32} {
+			w := ((v % m) + m) % m
+			if w != v {
+				c.near = append(c.near, num(w))
+			}
+		}
+		if v < 0 {
+			c.near = append(c.near, num(-v))
+		}
+		c.near = append(c.near, num(v+256), frac(2*v+1, 2))
+		ids = append(ids, c)
+	}
+	for _, f := range [][2]int64{{3, 2}, {1, 2}, {5, 2}, {513, 2}, {-1, 2}, {-3, 2}, {5, 4}, {1025, 1024}, {511, 2}} {
+		n, d := f[0], f[1]
+		fl := n / d
+		if n < 0 && n%d != 0 {
+			fl--
+		}
+		c := idc{id: frac(n, d), near: []JV{num(fl), num(fl + 1), num(((fl % 256) + 256) % 256)}}
+		ids = append(ids, c)
+	}
+	sharedEntry := func(id JV, tag string) Entry {
+		return Entry{KV{"id", id}, KV{"name", JV{S: str("shared-" + tag)}}, KV{"x", JV{N: i64(int64(r.Range(1, 1000)))}}, KV{"endpoint", JV{S: str("ws://shared-" + tag)}}}
+	}
+	local := func(id JV) Entry {
+		return Entry{KV{"id", id}, KV{"type", JV{S: str("evm")}}, KV{"endpoint", JV{S: str("ws://local")}}, KV{"bridge", JV{S: str("0xd606A00c")}}}
+	}
+	li := 0
+	add := func(c Case, allInts bool) {
+		c.Kind = "merge"
+		c.Loader = loaders[li%2]
+		c.SharedIntIds = allInts && li%4 >= 2
+		li++
+		out = append(out, c)
+	}
+	isInt := func(vs ...JV) bool {
+		for _, v := range vs {
+			if v.N == nil {
+				return false
+			}
+		}
+		return true
+	}
+	for _, c := range ids {
+		// the same id in the shared configuration
+		add(Case{Locals: []Entry{local(c.id)}, Shared: []Entry{sharedEntry(c.id, "same")}}, isInt(c.id))
+		// no such id
+		add(Case{Locals: []Entry{local(c.id)}, Shared: []Entry{sharedEntry(num(9), "other")}}, isInt(c.id))
+		for ni, n := range c.near {
+			// only a congruent / neighbouring id
+			add(Case{Locals: []Entry{local(c.id)}, Shared: []Entry{sharedEntry(n, "near")}}, isInt(c.id, n))
+			if tier != "thorough" && ni%2 == 1 {
+				continue
+			}
+			// the congruent id FIRST, then the id itself (the first match wins: it must be the equal one)
+			add(Case{Locals: []Entry{local(c.id)}, Shared: []Entry{sharedEntry(n, "near"), sharedEntry(c.id, "same")}}, isInt(c.id, n))
+			// both as local chains, only the congruent one shared
+			add(Case{Locals: []Entry{local(n), local(c.id)}, Shared: []Entry{sharedEntry(n, "near")}}, isInt(c.id, n))
+		}
+	}
+	// ids written as strings / booleans are no ids
+	for _, id := range []JV{{S: str("1")}, {S: str("257")}, {S: str("")}, {B: boolp(true)}, {S: str("1.0")}} {
+		add(Case{Locals: []Entry{local(id)}, Shared: []Entry{sharedEntry(num(1), "one")}}, false)
+		add(Case{Locals: []Entry{local(num(1))}, Shared: []Entry{sharedEntry(id, "str"), sharedEntry(num(1), "one")}}, false)
+		add(Case{Locals: []Entry{local(num(1))}, Shared: []Entry{sharedEntry(id, "str")}}, false)
 	}
 	return out
 }
@@ -1219,6 +1334,8 @@ func coqJV(v JV) string {
 		return "JStr " + vgen.Str(*v.S)
 	case v.B != nil:
 		return "JBool " + vgen.Bool(*v.B)
+	case v.R != nil:
+		return "JFrac " + vgen.Z(v.R[0]) + " " + fmt.Sprintf("%d%%positive", v.R[1])
 	}
 	panic("empty JV")
 }
@@ -1303,13 +1420,21 @@ func coq(c Case, o Obs) string {
 		kind := map[string]string{"evm": "Evm", "substrate": "Sub", "btc": "Btc"}[c.Chain]
 		in := "(mkChainIn " + kind + " " + vgen.Bool(c.Missing != "") + " " + optZ(c.Interval) + " " + optZ(c.Confs) + " " + optZ(c.Start) + ")"
 		if !o.Ok {
-			return "Chain " + in + " None"
+			return "Chain " + in + " None None"
 		}
 		calc := "Panic"
 		if o.Chain.Calc != "panic" {
 			calc = "(Val " + zOfDec(o.Chain.Calc) + ")"
 		}
-		return "Chain " + in + " (Some (mkChainCfg " + zOfDec(o.Chain.Interval) + " " + zOfDec(o.Chain.Confs) + " " + zOfDec(o.Chain.Start) + ", " + calc + "))"
+		calcOf := func(s string) string {
+			if s == "panic" {
+				return "Panic"
+			}
+			return "(Val " + zOfDec(s) + ")"
+		}
+		after := "(Some (mkAfter (mkChainCfg " + zOfDec(o.Chain.AInterval) + " " + zOfDec(o.Chain.AConfs) + " " + zOfDec(o.Chain.AStart) + ") " +
+			vgen.Bool(o.Chain.Same) + " " + vgen.ListOf(o.Chain.Calcs, calcOf) + "))"
+		return "Chain " + in + " (Some (mkChainCfg " + zOfDec(o.Chain.Interval) + " " + zOfDec(o.Chain.Confs) + " " + zOfDec(o.Chain.Start) + ", " + calc + ")) " + after
 	case "merge":
 		impl := "None"
 		if o.Ok {
@@ -1337,14 +1462,17 @@ func emptyOverlap(c Case) bool {
 		}
 		return JV{}, false
 	}
+	sameID := func(a, b JV) bool {
+		return (a.N != nil && b.N != nil && *a.N == *b.N) || (a.R != nil && b.R != nil && *a.R == *b.R)
+	}
 	for _, l := range c.Locals {
 		id, ok := get(l, "id")
-		if !ok || id.N == nil {
+		if !ok || (id.N == nil && id.R == nil) {
 			continue
 		}
 		for _, s := range c.Shared {
 			sid, ok := get(s, "id")
-			if !ok || sid.N == nil || *sid.N != *id.N {
+			if !ok || !sameID(id, sid) {
 				continue
 			}
 			for _, kv := range l {
@@ -1425,6 +1553,6 @@ func main() {
 			}
 			return len(c.Locals) > 0
 		},
-		Rule: "boundary lists (0, +-1, 32767/32768, 65535/65536, 2^31, 2^63, 2^64, int64-overflow edge per duration unit) x {file, env} loader x field for ports and durations; substrateNetwork at the uint16 edges x {direct, file, env}; interval x confirmations grid x {evm, substrate, btc} x {constructor directly, via file loader, via env loader} with missing-required-field variants; the complete two-key local/shared state matrix (absent, local only, shared only, equal, different, empty-vs-set, set-vs-empty, empty only, both empty) plus random 0..3-chain configurations with unknown ids, missing id/type, int and float ids; the 12 string-valued relayer settings (opentelemetry url, log file, env, id, key share paths, MPC key, topology encryption key / url / path, uploader url / token) x {file, env} x a catalogue of texts ('=' anywhere, '==' at the end, URL punctuation, '_' and the SYG prefix inside the value, blanks, quotes, JSON/shell meta characters, texts that look like numbers/bools/null, unicode, 4 kB) one at a time and all at once with pairwise different texts (rotated catalogue + random texts, settings left out / empty); log level names and non-names; string, bool and handler-list settings of evm/substrate/btc chain entries through the constructor directly, the file loader and SYG_CHAINS; distinct = distinct input JSON; non-trivial = text of the modelled grammar / at least one numeric setting or a missing required field / at least one local chain",
+		Rule: "boundary lists (0, +-1, 32767/32768, 65535/65536, 2^31, 2^63, 2^64, int64-overflow edge per duration unit) x {file, env} loader x field for ports and durations; substrateNetwork at the uint16 edges x {direct, file, env}; interval x confirmations grid x {evm, substrate, btc} x {constructor directly, via file loader, via env loader} with missing-required-field variants; the complete two-key local/shared state matrix (absent, local only, shared only, equal, different, empty-vs-set, set-vs-empty, empty only, both empty) plus random 0..3-chain configurations with unknown ids, missing id/type, int and float ids; chain ids over 0..3, 255..258, 511..513, 65535..65537, 2^31, 2^32+1, negative, non-integral and string ids against shared configurations holding the same id, none, only a congruent id (mod 2^8 / 2^16 / 2^32, truncated / rounded), or the congruent id before the equal one; after every accepted chain config the start-block computation is run on the config's own pointers three times and String() once and ALL fields of the config object are compared by value with a snapshot taken right after loading; the 12 string-valued relayer settings (opentelemetry url, log file, env, id, key share paths, MPC key, topology encryption key / url / path, uploader url / token) x {file, env} x a catalogue of texts ('=' anywhere, '==' at the end, URL punctuation, '_' and the SYG prefix inside the value, blanks, quotes, JSON/shell meta characters, texts that look like numbers/bools/null, unicode, 4 kB) one at a time and all at once with pairwise different texts (rotated catalogue + random texts, settings left out / empty); log level names and non-names; string, bool and handler-list settings of evm/substrate/btc chain entries through the constructor directly, the file loader and SYG_CHAINS; distinct = distinct input JSON; non-trivial = text of the modelled grammar / at least one numeric setting or a missing required field / at least one local chain",
 	})
 }
